@@ -48,6 +48,13 @@ def _tilted_uniform(x, y, z, *, Bz, Bx):
     return np.stack([-Bz * y / 2, Bz * x / 2, Bx * y], axis=1)
 
 
+def _osc_plain_field(x, y, z, *, t, B, w):
+    """Uniform field B cos(w t) (symmetric gauge) as ONE plain time-dependent function (not a product of Parameters)."""
+    x, y = np.atleast_1d(x), np.atleast_1d(y)
+    f = 0.5 * B * math.cos(w * t)
+    return np.stack([-f * y, f * x, np.zeros_like(x)], axis=1)
+
+
 def _osc_scale(x, y, z, *, t, w, lo, hi):
     return lo + (hi - lo) * 0.5 * (1 - math.cos(w * t))
 
@@ -166,6 +173,8 @@ def build_drive(d, device, options):
         avp = ConstantField(A["B"], field_units=fu, length_units=lu) * LinearRamp(tmin=A["tmin"], tmax=A["tmax"], initial=A.get("initial", 0.0), final=A.get("final", 1.0))
     elif k == "osc":
         avp = Scale(_osc_scale, w=A["w"], lo=A.get("lo", 0.0), hi=A.get("hi", 1.0)) * ConstantField(A["B"], field_units=fu, length_units=lu)
+    elif k == "osc_plain":
+        avp = tdgl.Parameter(_osc_plain_field, time_dependent=True, B=float(A["B"]), w=float(A["w"]))
     elif k == "piecewise":
         avp = Scale(_step_scale, times=tuple(A["times"]), values=tuple(A["values"])) * ConstantField(A["B"], field_units=fu, length_units=lu)
     elif k == "loop":
@@ -324,7 +333,7 @@ class _StepCap:
 
 
 def run_sim(spec, listeners=(), failpoints=None, device=None, seed_solution=None, keep_dir=False,
-            pre_solve=None, workdir=None, options_obj=None):
+            pre_solve=None, workdir=None, options_obj=None, avp_obj=None):
     """Run tdgl.solve once under the flight recorder. Returns RunResult with
     .device .options .solution .exception .outdir .output_path .recorder .refused"""
     import tdgl
@@ -351,6 +360,8 @@ def run_sim(spec, listeners=(), failpoints=None, device=None, seed_solution=None
     options.pause_on_interrupt = spec.get("options", {}).get("pause_on_interrupt", False)
     rr.options = options
     avp, tc, eps = build_drive(spec.get("drive", {}), device, options)
+    if avp_obj is not None:
+        avp = avp_obj  # the caller's own Parameter object (used before, or used again later)
     rr.drive = (avp, tc, eps)
     # the caller's objects are inputs: a dict of terminal currents and the options object are what they were afterwards
     import copy as _copy
